@@ -81,6 +81,11 @@ def _unrepaired_model_agrees(lines, answers):
                for a, m in zip(answers, out)) and len(out) == len(answers)
 
 
+APPLY2 = ['or', '\\/', '|', '||', 'and', '/\\', '&', '&&', '#', 'xor', '^', '=>', '->', 'implies',
+          '<=>', '<->', 'equiv', 'diff', '-']
+QUANT = ['\\A', 'forall', '\\E', 'exists']
+
+
 class _Scn:
     def __init__(self, ctx, nv):
         self.ctx = ctx
@@ -109,6 +114,14 @@ class _Scn:
             return ('foa', i, v if rng.random() < 0.5 else -v, w if rng.random() < 0.7 else -w)
         g, u, v = self.pick(), self.pick(), self.pick()
         k = rng.random()
+        if r < 0.55:
+            # `apply`: every connective, the ternary `ite`, negation (one `self.ite` each)
+            op = rng.choice(APPLY2 + ['ite', 'ite', 'not', '~'])
+            if op == 'ite':
+                return ('apply', op, g, u, v)
+            if op in ('not', '~'):
+                return ('apply', op, u)
+            return ('apply', op, u, v)
         if k < 0.25:
             return ('ite', g, u, -1)          # and
         if k < 0.5:
@@ -410,6 +423,189 @@ def swap_variants(ctx, n):
             s.close()
 
 
+# --- every other node-creating operation at capacity: oracle on the real code ------------------
+# `apply` with the quantifier aliases, `quantify`, `cofactor` / `let` (three forms), `compose`,
+# `rename`, `cube`, `add_expr`, `copy_bdd` have no capacity-aware model; their refusal half-way is
+# checked on the real manager only (structure, exact counts for the held ledger, truth tables of
+# the held references, old nodes untouched, `_min_free` free, flag cleared, threshold unchanged),
+# then the limit is raised and the refused call must return the function the truth-table oracle
+# computes.  The sessions are NOT replayed on the model.
+
+OP_KINDS = ['apply2', 'apply3', 'applyq', 'quantify', 'cofactor', 'let_b', 'let_r', 'let_n',
+            'compose', 'rename', 'cube', 'add_expr', 'var']
+
+
+def _op_call(h, sp, tt, kind=None):
+    """A random call `(protocol fields, expected truth table or None)`."""
+    rng = h.rng
+    u, v, w = h.pick(), h.pick(), h.pick()
+    tu, tv, tw = tt.of(u), tt.of(v), tt.of(w)
+    names = h.names
+    kind = kind or rng.choice(OP_KINDS)
+    if kind == 'apply2':
+        op = rng.choice(APPLY2)
+        f = {'or': lambda: tu | tv, 'and': lambda: tu & tv, 'xor': lambda: tu ^ tv,
+             'imp': lambda: sp.neg(tu) | tv, 'eq': lambda: sp.neg(tu ^ tv), 'diff': lambda: tu & sp.neg(tv)}
+        cls = ('or' if op in APPLY2[:4] else 'and' if op in APPLY2[4:8] else 'xor' if op in APPLY2[8:11]
+               else 'imp' if op in APPLY2[11:14] else 'eq' if op in APPLY2[14:17] else 'diff')
+        return ('apply', op, u, v), f[cls]()
+    if kind == 'apply3':
+        return ('apply', 'ite', u, v, w), sp.ite(tu, tv, tw)
+    if kind == 'applyq':
+        op = rng.choice(QUANT)
+        q = sp.support(tu)
+        return ('apply', op, u, v), (sp.forall(tv, q) if op in QUANT[:2] else sp.exists(tv, q))
+    if kind == 'quantify':
+        q = rng.sample(names, rng.randint(1, min(3, len(names))))
+        fa = rng.random() < 0.5
+        return (('quantify', u, ','.join('n:' + x for x in q), int(fa)),
+                sp.forall(tu, q) if fa else sp.exists(tu, q))
+    if kind in ('cofactor', 'let_b'):
+        q = rng.sample(names, rng.randint(1, min(3, len(names))))
+        vals = {x: rng.random() < 0.5 for x in q}
+        t = tu
+        for x, b_ in vals.items():
+            t = sp.cof(t, x, b_)
+        return (kind, u, ','.join(f'n:{x}={int(b_)}' for x, b_ in vals.items())), t
+    if kind in ('compose', 'let_r'):
+        q = rng.sample(names, rng.randint(1, min(2, len(names))))
+        sub = {x: h.pick() for x in q}
+        return ((kind, u, ','.join(f'{x}={r}' for x, r in sub.items())),
+                sp.compose(tu, {x: tt.of(r) for x, r in sub.items()}))
+    if kind in ('rename', 'let_n'):
+        supp = sp.support(tu)
+        free = [x for x in names if x not in supp]
+        if not supp or not free:
+            return ('var', rng.choice(names)), None
+        x, y = rng.choice(sorted(supp)), rng.choice(free)
+        return (kind, u, f'{x}={y}'), sp.rename(tu, {x: y})
+    if kind == 'cube':
+        q = rng.sample(names, rng.randint(1, min(4, len(names))))
+        vals = {x: rng.random() < 0.5 for x in q}
+        t = sp.full
+        for x, b_ in vals.items():
+            t &= sp.var(x) if b_ else sp.neg(sp.var(x))
+        return ('cube', ','.join(f'{x}={int(b_)}' for x, b_ in vals.items())), t
+    if kind == 'add_expr' and 'add_expr' in impl.EXT_OPS:
+        def gen(d):
+            if d == 0 or rng.random() < 0.3:
+                x = rng.choice(names)
+                return x, sp.var(x)
+            k = rng.random()
+            if k < 0.2:
+                e, t = gen(d - 1)
+                return f'~ ({e})', sp.neg(t)
+            e1, t1 = gen(d - 1)
+            e2, t2 = gen(d - 1)
+            if k < 0.6:
+                return f'({e1}) /\\ ({e2})', t1 & t2
+            return f'({e1}) \\/ ({e2})', t1 | t2
+        e, t = gen(3)
+        return ('add_expr', e), t
+    return ('var', rng.choice(names)), None
+
+
+def op_scenario(ctx, k):
+    rng = ctx.rng
+    h = _Scn(ctx, rng.randint(4, 6))
+    s, b = h.s, h.b
+    from funcs import Space
+    sp = Space(h.names)
+    try:
+        for v in h.names:
+            a = h.call(('var', v))
+            if rng.random() < 0.7:
+                h.hold(s.val(a))
+        for _ in range(rng.randint(3, 9)):
+            c, _t = _op_call(h, sp, TT(b, h.names), rng.choice(['apply2', 'apply3', 'apply2', None]))
+            r = s.val(h.call(c))
+            if r is not None and rng.random() < 0.5:
+                h.hold(r)
+        if rng.random() < 0.3:
+            s.op(0, 'configure', 1)
+        s.op(0, 'gc')
+        h.pool = [1, -1] + [u for u in h.pool if abs(u) != 1 and abs(u) in b._succ]
+        target = None
+        if k % 5 == 4:
+            # `copy_bdd` INTO a manager at capacity: manager 1, same variables, another order
+            s.op(1, 'new', ','.join(f'{v}={i}' for i, v in enumerate(reversed(h.names))))
+            target = s.mgr(1)
+            for v in h.names[:2]:
+                s.incref(1, s.val(s.op(1, 'var', v)))
+        cb = target if target is not None else b
+        mid = 1 if target is not None else 0
+        s.op(mid, 'set_max_nodes', max(0, cb._min_free + rng.choice([0, 0, 1, 1, 2, 2, 3, 4])))
+        refused = None
+        # most scenarios insist on ONE kind of call until it is refused (else the calls that always
+        # need a node — `cube`, `var` — would take every refusal)
+        focus = OP_KINDS[k % len(OP_KINDS)] if rng.random() < 0.8 else None
+        for _ in range(20):
+            tt = TT(b, h.names)
+            if target is not None:
+                u = h.pick()
+                c, want = ('copy', u, 1), tt.of(u)
+            else:
+                c, want = _op_call(h, sp, tt, focus)
+            led = s.ledger.setdefault(mid, {})
+            held_tt = {x: TT(cb, h.names).of(x) for x, n_ in led.items() if n_ > 0}
+            last_len, old_succ, before = cb._last_len, dict(cb._succ), impl.dump_state(cb)
+            del FULL_SITES[:]
+            a = s.op(0, *c)
+            ctx.evaluations += 1
+            if a != 'err RuntimeError':
+                r = s.val(a)
+                if r is not None and target is None and abs(r) in b._succ and r not in h.pool and -r not in h.pool:
+                    h.pool.append(r)
+                continue
+            refused = (c, want)
+            ctx.count('cap-op:refused-' + c[0] + (':quant' if c[0] == 'apply' and c[1] in QUANT else ''))
+            bad = check_invariants(cb, led, probe=False)
+            tt2 = TT(cb, h.names)
+            for x, t in held_tt.items():
+                if x not in cb._succ or tt2.of(x) != t:
+                    bad.append(f'held node {x} changed or disappeared')
+            for x, t in old_succ.items():
+                if cb._succ.get(x) != t:
+                    bad.append(f'node {x} existed and was touched')
+            if cb._min_free in cb._succ:
+                bad.append('_min_free names a stored node')
+            if cb._reordering_context or b._reordering_context:
+                bad.append('the reordering-context flag is still set')
+            if cb._last_len != last_len:
+                bad.append('the reordering threshold changed')
+            if bad and FULL_SITES:
+                _f22(ctx, s, cb, 'op:' + c[0], '\t'.join(map(str, c)), bad)
+                return
+            if bad:
+                ctx.violation('max_nodes reached: the refused call damaged the manager', dict(
+                    lines=list(s.lines), call='\t'.join(map(str, c)), problems=bad[:5],
+                    max_nodes=cb.max_nodes, state_before=before[:600],
+                    tags=dict(call='full:' + c[0])))
+                return
+            break
+        if refused is None:
+            ctx.count('cap-op:not-reached')
+        else:
+            c, want = refused
+            s.op(mid, 'set_max_nodes', 'max')
+            a = s.op(0, *c)
+            r = s.val(a)
+            if r is None:
+                ctx.violation('the refused call still fails after the limit was raised', dict(
+                    lines=list(s.lines), call='\t'.join(map(str, c)), answer=a, tags=dict(call='full:retry')))
+            elif want is not None and TT(cb, h.names).of(r) != want:
+                ctx.violation('the repeated call returns another function', dict(
+                    lines=list(s.lines), call='\t'.join(map(str, c)), answer=a, tags=dict(call='full:retry')))
+            s.op(mid, 'gc')
+            bad = check_invariants(cb, s.ledger.get(mid, {}), probe=True)
+            if bad:
+                ctx.violation('manager damaged after going on from a full manager', dict(
+                    lines=list(s.lines), problems=bad[:5], tags=dict(call='full:after')))
+        ctx.case(('cap-op', len(h.names), refused and refused[0][0], len(s.lines)))
+    finally:
+        s.close()
+
+
 def extra_C17_capacity(ctx):
     saved = ctx.driver
     ctx.flush_model()
@@ -427,6 +623,14 @@ def extra_C17_capacity(ctx):
             n += 1
             if n % 20 == 0:
                 ctx.flush_model()
+        nops = 0
+        want_ops = 400 if ctx.tier == 'quick' else 6000
+        while nops < want_ops and ctx.time_left() > 5:
+            op_scenario(ctx, nops)
+            nops += 1
+        ctx.notes.append(f'capacity, oracle only: {nops} scenarios over apply (connectives, ite, quantifier '
+                         'aliases), quantify, cofactor, let (3 forms), compose, rename, cube, add_expr, copy_bdd '
+                         'at capacities around the point of refusal')
         ctx.notes.append(f'capacity: {n} scenarios with max_nodes lowered around _min_free '
                          '(find_or_add / ite / var until refused, state after every call, limit raised, '
                          'call repeated, collections); replayed on ddvcap')
